@@ -26,8 +26,8 @@ def EffOK (kd : Kind) (s : State) : Eff → Prop
   | .writeB b v => (∃ x, s.xs x = some b) ∧ (kd = .dyn ∨ v.length = (s.read b).length)
   | .bindA _ v => ViewOK s v ∧ kd.isFv = true
   | .newA _ _ => True
-  | .newAV _ mem off step len _ =>
-    step ≠ 0 ∧ ∀ j, j < len → 0 ≤ off + (j : Int) * step ∧ off + (j : Int) * step < (mem.length : Int)
+  | .newAV _ mem off step len _ m =>
+    step ≠ 0 ∧ 0 < m.rsz ∧ ∀ j, j < len → 0 ≤ off + (j : Int) * step ∧ off + (j : Int) * step < (mem.length : Int)
   | .writeCell v p _ => (∃ a, s.arrs a = some v) ∧ p < v.len
   | .writeView v vals => (∃ a, s.arrs a = some v) ∧ vals.length = v.len
 
@@ -35,10 +35,10 @@ def EffOK (kd : Kind) (s : State) : Eff → Prop
 
 theorem viewOK_of_same (s s' : State) (v : View) (hlen : s.blocks.length ≤ s'.blocks.length)
     (hrd : (s'.read v.blk).length = (s.read v.blk).length) (h : ViewOK s v) : ViewOK s' v := by
-  refine ⟨Nat.lt_of_lt_of_le h.1 hlen, h.2.1, ?_⟩
+  refine ⟨Nat.lt_of_lt_of_le h.1 hlen, h.2.1, h.2.2.1, ?_⟩
   intro j hj
   rw [hrd]
-  exact h.2.2 j hj
+  exact h.2.2.2 j hj
 
 theorem inv_alloc_bindX (kd : Kind) (s : State) (x : Nat) (v : List Int) (h : Inv kd s)
     (hv : ∀ n, kd = .fv n → v.length = n) : Inv kd ((s.alloc v).1.bindX x (s.alloc v).2) := by
@@ -243,16 +243,16 @@ theorem apply_inv (kd : Kind) (s : State) (e : Eff) (h : Inv kd s) (he : EffOK k
       have := h.xs_lt x _ hx
       simp only [fullView, alloc_fresh] at this
       omega
-  | newAV a mem off step len dt =>
+  | newAV a mem off step len dt m =>
     simp only [Eff.apply]
     have h1 := inv_alloc kd s mem h
     refine inv_bindA kd _ a _ h1 ?_ ?_
     · have hb : (s.alloc mem).2 < (s.alloc mem).1.blocks.length := by
         rw [alloc_blocks_length, alloc_fresh]; omega
-      refine ⟨hb, he.1, ?_⟩
+      refine ⟨hb, he.1, he.2.1, ?_⟩
       intro j hj
       simp only [read_alloc_new]
-      exact he.2 j hj
+      exact he.2.2 j hj
     · intro _ x hx
       rw [alloc_xs] at hx
       have := h.xs_lt x _ hx
